@@ -7,6 +7,7 @@ import Dashu.Proofs.Int.Memory
 import Dashu.Proofs.Int.MulCompose
 import Dashu.Proofs.Int.PowCompose
 import Dashu.Proofs.Int.PowBuf
+import Dashu.Proofs.Int.PowFull
 /-
   C01 — Integer ring arithmetic is exact for every operand size and sign.
 
@@ -701,6 +702,31 @@ theorem pow_base_buffer_repr (W : Nat) (hW : 4 ≤ W) (base exp : Nat) :
 theorem canonical_unique (W : Nat) (x y : TRepr) (hx : x.Canon W) (hy : y.Canon W)
     (h : x.value W = y.value W) : x = y := canon_unique W x y hx hy h
 
+/-- **`TypedReprRef::pow` end to end with real buffers** (`pow_word_base` / `pow_dword_base` on word lists with
+    capacity assertions and scratch allocations, `pow_large_base` on heap values): never panics and returns
+    the `Repr` of `base ^ exp` -/
+theorem repr_pow_buffers_exact (W : Nat) (hW : 4 ≤ W) (a : TRepr) (exp : Nat) (ha : a.Canon W) :
+    ∃ r, a.powBuf W exp = .ok r ∧ r.value W = a.value W ^ exp ∧ r.Canon W := by
+  have h := TRepr.pow_spec W hW a exp ha
+  exact ⟨a.pow W exp, TRepr.powBuf_eq W hW a exp ha, h.1, h.2⟩
+
+/-- **`UBig::pow` / `IBig::pow` exactly as the driver runs them** (mirrored C09 kernels for `trailing_zeros`,
+    `>>`, `<<`; buffers for the word / double-word bases): the exact power, canonical; the documented
+    allocation panic exactly when `exp * shift` does not fit `usize` -/
+theorem u_pow_full_exact (W : Nat) (hW : 4 ≤ W) (a : TRepr) (exp : Nat) (ha : a.Canon W) :
+    (powShiftOverflows (a.value W) exp = true → ubigPowFull W a exp = .error .allocTooMuch) ∧
+    (powShiftOverflows (a.value W) exp = false →
+      ∃ r, ubigPowFull W a exp = .ok r ∧ r.value W = a.value W ^ exp ∧ r.Canon W) := by
+  rw [ubigPowFull_eq W hW a exp ha]
+  exact ubigPowKernels_spec W hW a exp ha
+
+theorem i_pow_full_exact (W : Nat) (hW : 4 ≤ W) (a : SRepr) (exp : Nat) (ha : a.WF W) :
+    (powShiftOverflows (a.mag.value W) exp = true → ibigPowFull W a exp = .error .allocTooMuch) ∧
+    (powShiftOverflows (a.mag.value W) exp = false →
+      ∃ r, ibigPowFull W a exp = .ok r ∧ r.value W = a.value W ^ exp ∧ r.WF W) := by
+  rw [ibigPowFull_eq W hW a exp ha]
+  exact ibigPowKernels_spec W hW a exp ha
+
 -- ====================================================================== exactly what the driver evaluates
 
 /-- `u.mul`, `u.sqr`, `u.cubic` as evaluated by the driver, for all naturals -/
@@ -724,8 +750,41 @@ theorem i_mul_of_int (W : Nat) (hW : 4 ≤ W) (x y : Int) :
   rw [(ibigMul_spec W hW _ _ (SRepr.ofInt_wf W (by omega) x) (SRepr.ofInt_wf W (by omega) y)).1,
     SRepr.ofInt_value W (by omega), SRepr.ofInt_value W (by omega)]
 
-/-- `u.pow` / `i.pow` as evaluated by the driver: the exact power whenever `exp * shift` fits `usize`,
-    the documented allocation panic otherwise -/
+/-- `i.sqr`, `i.cubic` and the mixed `ui.*` / `iu.*` operators as evaluated by the driver, for all integers -/
+theorem i_sqr_cubic_of_int (W : Nat) (hW : 4 ≤ W) (x : Int) :
+    (((ofNat W x.natAbs).sqr W).value W : Int) = x * x ∧
+    (ibigMul W (.ofInt W x) ⟨false, (ofNat W x.natAbs).sqr W⟩).value W = x * x * x := by
+  have hs := TRepr.sqr_spec W hW _ (ofNat_canon W (by omega) x.natAbs)
+  have hv := ofNat_value W (by omega) x.natAbs
+  have hsq : ((x.natAbs * x.natAbs : Nat) : Int) = x * x := by
+    push_cast; rw [← Int.natAbs_mul_self (a := x)]; push_cast; rfl
+  have hwf : (SRepr.mk false ((ofNat W x.natAbs).sqr W)).WF W := ⟨hs.2, by simp⟩
+  refine ⟨by rw [hs.1, hv]; exact hsq, ?_⟩
+  rw [(ibigMul_spec W hW _ _ (SRepr.ofInt_wf W (by omega) x) hwf).1, SRepr.ofInt_value W (by omega)]
+  simp only [SRepr.value_mk, Bool.false_eq_true, if_false]
+  rw [hs.1, hv, hsq]; ring
+
+theorem mixed_ops_of_nat_int (W : Nat) (hW : 4 ≤ W) (x : Nat) (y : Int) (form : Nat) :
+    (ibigAdd W ⟨false, ofNat W x⟩ (.ofInt W y) form).value W = x + y ∧
+    (ibigSub W ⟨false, ofNat W x⟩ (.ofInt W y) form).value W = x - y ∧
+    (ibigMul W ⟨false, ofNat W x⟩ (.ofInt W y)).value W = x * y ∧
+    (ibigAdd W (.ofInt W y) ⟨false, ofNat W x⟩ form).value W = y + x ∧
+    (ibigSub W (.ofInt W y) ⟨false, ofNat W x⟩ form).value W = y - x ∧
+    (ibigMul W (.ofInt W y) ⟨false, ofNat W x⟩).value W = y * x := by
+  have hx := SRepr.mk_ofNat_wf W (by omega) x
+  have hy := SRepr.ofInt_wf W (by omega) y
+  have vx := SRepr.mk_ofNat_value W (by omega) x
+  have vy := SRepr.ofInt_value W (by omega) y
+  refine ⟨?_, ?_, ?_, ?_, ?_, ?_⟩
+  · rw [(ibigAdd_spec W (by omega) _ _ form hx hy).1, vx, vy]
+  · rw [(ibigSub_spec W (by omega) _ _ form hx hy).1, vx, vy]
+  · rw [(ibigMul_spec W hW _ _ hx hy).1, vx, vy]
+  · rw [(ibigAdd_spec W (by omega) _ _ form hy hx).1, vx, vy]
+  · rw [(ibigSub_spec W (by omega) _ _ form hy hx).1, vx, vy]
+  · rw [(ibigMul_spec W hW _ _ hy hx).1, vx, vy]
+
+/-- `u.pow` / `i.pow` in the value-level formulation (`ubigPowChecked`); the driver runs the buffer-level
+    `ubigPowFull` / `ibigPowFull`, see `pow_full_of_nat_int` -/
 theorem pow_of_nat_int (W : Nat) (hW : 4 ≤ W) (x : Nat) (z : Int) (n : Nat) :
     (powShiftOverflows x n = false →
       ∃ r, ubigPowChecked W (ofNat W x) n = .ok r ∧ r.value W = x ^ n) ∧
@@ -745,6 +804,27 @@ theorem pow_of_nat_int (W : Nat) (hW : 4 ≤ W) (x : Nat) (z : Int) (n : Nat) :
     refine ⟨ibigPow W (.ofInt W z) n, by simp [ibigPowChecked, vz, h], ?_⟩
     rw [(ibigPow_spec W hW _ n (SRepr.ofInt_wf W (by omega) z)).1, SRepr.ofInt_value W (by omega)]
   · intro h; simp [ibigPowChecked, vz, h]
+
+/-- **`u.pow` / `i.pow` exactly as the driver evaluates them** (`ubigPowFull` / `ibigPowFull` on `ofNat` / `ofInt`
+    inputs): the exact power whenever `exp * shift` fits `usize`, the documented allocation panic otherwise -/
+theorem pow_full_of_nat_int (W : Nat) (hW : 4 ≤ W) (x : Nat) (z : Int) (n : Nat) :
+    (powShiftOverflows x n = false → ∃ r, ubigPowFull W (ofNat W x) n = .ok r ∧ r.value W = x ^ n) ∧
+    (powShiftOverflows x n = true → ubigPowFull W (ofNat W x) n = .error .allocTooMuch) ∧
+    (powShiftOverflows z.natAbs n = false →
+      ∃ r, ibigPowFull W (.ofInt W z) n = .ok r ∧ r.value W = z ^ n) ∧
+    (powShiftOverflows z.natAbs n = true → ibigPowFull W (.ofInt W z) n = .error .allocTooMuch) := by
+  have vx := ofNat_value W (by omega) x
+  have vz : (SRepr.ofInt W z).mag.value W = z.natAbs := by
+    simp only [SRepr.ofInt]; exact ofNat_value W (by omega) _
+  obtain ⟨u1, u2⟩ := u_pow_full_exact W hW (ofNat W x) n (ofNat_canon W (by omega) x)
+  obtain ⟨i1, i2⟩ := i_pow_full_exact W hW (.ofInt W z) n (SRepr.ofInt_wf W (by omega) z)
+  rw [vx] at u1 u2
+  rw [vz] at i1 i2
+  refine ⟨fun h => ?_, u1, fun h => ?_, i1⟩
+  · obtain ⟨r, e, v, _⟩ := u2 h
+    exact ⟨r, e, v⟩
+  · obtain ⟨r, e, v, _⟩ := i2 h
+    exact ⟨r, e, by rw [v, SRepr.ofInt_value W (by omega)]⟩
 
 -- ====================================================================== agreement with the regenerated glue
 
@@ -797,5 +877,18 @@ example : IsWords 8 [255, 255, 1] ∧ (mulWordInPlace 8 [255, 255, 1] 255 0) = (
 example : IsWords 64 [2^64-1, 2^64-1, 2^64-1] ∧ IsWords 64 [1, 0, 0] ∧
     (addSameLen 64 [2^64-1, 2^64-1, 2^64-1] [1, 0, 0] 0) = ([0, 0, 0], 1) := by
   refine ⟨by decide, by decide, by decide⟩
+
+
+-- non-vacuity of the hypotheses of the multiplication / pow / memory theorems: concrete large instances
+example : IsWords 64 (List.replicate 200 (2^64-1)) := by decide +kernel
+example : (TRepr.large (List.replicate 193 1)).Canon 64 := by decide +kernel          -- a Toom-3-sized operand
+example : (SRepr.mk true (.large [0,0,1])).WF 64 := ⟨by decide, by decide⟩             -- a negative heap IBig
+example : SameLenContract 64 (addSignedMulSameLen 64 200) := add_signed_mul_same_len_exact 64 (by decide) 200
+example : GenContract 64 (addSignedMul 64 400) := add_signed_mul_exact 64 (by decide) 400
+example : 2 < 3 ∧ 3 < 2^64 ∧ 2 * (maxExpInWord 64 3).1 ≤ 100 := by decide            -- pow_word_base loop branch
+example : (List.replicate 16 7).length = (List.replicate 16 9).length ∧ 16 ≤ (List.replicate 16 7).length := by
+  decide                                                                              -- Toom-3 MIN_LEN
+example : powShiftOverflows 3 5 = false := by simp [powShiftOverflows, trailingZeros_odd 3 (by decide)]
+example : mulMemReq (min 400 193) ≤ mulMemReq 193 := Nat.le_refl _
 
 end Dashu.Props.C01
